@@ -209,7 +209,7 @@ func runSched(c *check.Ctx, scn *schedScenario, prop string, events []string, or
 // the reference engine. Scenarios with injected faults or a cancelled context have no
 // reference result.
 func rootVsRef(sc *explore.Scenario, root *explore.Obs) (string, string) {
-	if sc.PreCancel {
+	if sc.PreCancel || len(sc.DistFaults) > 0 {
 		return "", ""
 	}
 	if len(sc.Case.Faults) == 0 && root.Res != nil {
